@@ -20,7 +20,7 @@ RULE = ('1-3 processes with private and shared stores; per variable a generated 
         'every case is also run with emit_step in {2, 3, 0.5, 2.5} for the subset law; non-trivial = >=4 '
         'rows and >=2 distinct flag values and a store_schema override or structural change; distinct = '
         'distinct case spec')
-PLAN = {'quick': {'n': 2400, 'min_cases': 400}, 'thorough': {'n': 80000, 'min_cases': 8000}}
+PLAN = {'quick': {'n': 6000, 'min_cases': 400}, 'thorough': {'n': 80000, 'min_cases': 8000}}
 REQUIRED_ORACLES = ['configuration_first', 'initial_row', 'row_per_update_time', 'times_increasing',
                     'row_content', 'no_change_after_row', 'row_after_steps', 'emit_step_subset',
                     'emit_step_no_duplicates']
